@@ -27,6 +27,23 @@ are sampled.  Oracle clauses (one counter per engine and clause):
   construct   a pandera data type built with valid parameters (A.Make thunks:
               the monitor builds them, a constructor that raises is a family
               member that does not resolve, never a harness crash)
+  native      a native spelling that is not a registry key and so reaches the
+              engine's fallback path (np.dtype(x).type / pandas_dtype(x) /
+              polars' parser) resolves and keeps what it names.  numpy:
+              everything numpy reads as a dtype - type codes with item size
+              and byte order ('<U5', 'S3', '>i8', '=f4', 'M8[25s]'), dtype
+              instances of those, the dtype of real arrays (strings, bytes,
+              numbers, dates), scalar classes (np.longlong, np.str_), dtype
+              class instances: str / bytes / object / numeric / bool /
+              temporal spellings must resolve, keep (kind, signedness, width)
+              and a str / bytes / object dtype stays one at any item size.
+              pandas: the same catalog, judged for the numeric / bool /
+              temporal spellings pandas itself reads; every extension dtype
+              class pandas builds without arguments, as class and instance
+              (the instance is boxed).  polars: every data type class polars
+              exports, its argument-free instance and the dtype of a Series
+              built with it ("supports all of the polars data types"): resolves
+              and boxes it, registered or not (Int128, UInt128, Float16)
   boxes       a parameterised native dtype instance resolves to a type whose
               ``type`` is that native dtype, compared order-sensitively for
               categories and by tzinfo object for time zones (reference:
@@ -47,7 +64,18 @@ and 1-3 dimensional shapes, nested inner types; pyarrow list size 0 / binary
 length 0 / negative decimal scale; pandas string aliases of period / sparse /
 interval natives; the engine-type constructors of every Arrow class.
 
-Not judged (counted under ``undecided:*``): whether a printed time-zone name
+Not judged (counted under ``undecided:*``): numpy void / structured /
+sub-array dtypes and numpy's 'T' StringDType in the numpy engine (they only get
+the fallback box whose "support is not guaranteed"; resolved, per-type clauses
+applied when they resolve); whether a sized '<U5' / 'S3' equals the unsized
+'str' / 'bytes' type (counted: it does); flexible / structured / 'T' numpy
+spellings in the pandas engine (a pandas object never carries such a dtype -
+pandas stores the data as object - the engine rejects the sized ones with
+numpy's own "data type 'str160' not understood"); python types beyond the
+built-in str / int / float / bool in the polars engine (decimal.Decimal, list,
+tuple, NoneType, generics: which parameters polars fills in); polars' abstract
+DataType / Extension bases and Unknown; equality of an extension dtype class
+and its argument-free instance; whether a printed time-zone name
 resolves back to the same *tzinfo implementation* (pandas reads
 'datetime64[ns, UTC]' as datetime.timezone.utc and calls it equal to pytz.utc
 / ZoneInfo('UTC'); decided on the native dtype's own name, never on what
@@ -82,7 +110,11 @@ def new_run():
     return Run(
         PID, "exploration",
         "case = one spelling (registry key, registered class, dispatch native, "
-        "documented family, numpy alias, sampled parameterisation with all its "
+        "documented family, numpy alias, native spelling outside the registry "
+        "[numpy type code with item size / byte order, dtype instance, dtype of a "
+        "real array, scalar class, structured dtype; pandas extension dtype class "
+        "/ instance; polars data type class / instance / Series dtype], "
+        "sampled parameterisation with all its "
         "spellings: native instance, engine-type constructor, abstract pandera "
         "instance, pandas string alias) or one "
         "ordered pair of physical types, per engine; non-trivial = the spelling "
@@ -149,8 +181,8 @@ class Ctx9:
 
 
 # which clause groups are written out as samples, per engine
-SAMPLE_TAGS = {"numpy": ("key",), "pandas": ("family", "param", "pair"),
-               "polars": ("param",), "pyspark": ("key",)}
+SAMPLE_TAGS = {"numpy": ("key", "native"), "pandas": ("family", "param", "pair"),
+               "polars": ("param", "native"), "pyspark": ("key",)}
 
 
 def observed(cx, k, t):
@@ -281,6 +313,14 @@ def mechs(engine, kind, w):
         b = re.fullmatch(r".*IntervalDtype:interval\[(.*)\]", w.get("boxed") or "")
         if a and b and a.group(1) == b.group(1):
             return ["pandas-interval-closed-side-dropped"]
+    if kind == "native-spelling-does-not-resolve" and engine == "polars" and \
+            w.get("input_class", "").startswith("unregistered:") and \
+            w.get("form") in ("instance", "series-dtype") and \
+            w.get("exc", "").startswith("TypeError: cannot parse input of type"):
+        # the *class* goes through convert_py_dtype_to_polars_dtype unchanged
+        # (DataTypeClass) and gets the fallback box; the instance is handed to
+        # polars' python-type parser, which raises
+        return ["polars-unregistered-native-instance-not-resolved"]
     groups = w.get("_groups")
     if groups is None:
         return [None]
@@ -634,6 +674,95 @@ def alias_phase(cx):
         type_clauses(cx, t, f"alias:{a}")
 
 
+def native_clause(cx, k, ref, how, origin):
+    """One native spelling that need not be a registry key (it may reach the
+    engine's fallback path): a numpy type code / dtype instance / array dtype
+    / scalar class [numpy, pandas] or a polars data type class / instance
+    [polars].  ``ref`` is what the native library itself reads it as.  Judged
+    where the adapter says the engine promises it: resolves; keeps (kind,
+    signedness, width); a str / bytes / object dtype stays one (any item
+    size, any byte order); boxes the native type.  Returns the resolved type
+    or None."""
+    ad = cx.ad
+    g = ad.native_group(ref)
+    pol = ad.native_policy(k, ref)
+    judged = pol.get("judged", False)
+    cx.c("native")
+    cx.c(f"native:{g}")
+    cx.c(f"native-how:{how}")
+    if isinstance(ref, np.dtype) and (
+            ref.byteorder == ">" or (isinstance(k, str) and k[:1] == ">")):
+        cx.c("native:non-native-byte-order")
+    if judged:
+        cx.c("native-judged")
+        cx.c(f"native-judged:{g}")
+    t = resolve(cx, k, "native")
+    w = {"spelling": A.desc(k), "native_library_reads_it_as": A.desc(ref),
+         "form": how, "input_class": g, "origin": origin}
+    if isinstance(t, Exception):
+        if judged:
+            viol(cx, "native-spelling-does-not-resolve", dict(w, exc=exc_s(t)))
+        else:
+            cx.c(f"undecided:native-spelling-rejected:{g}")
+        return None
+    if not judged:
+        cx.c(f"undecided:native-spelling-resolved-without-promise:{g}")
+    else:
+        if pol.get("cls", None) != "skip":
+            got = ad.native_class(t)
+            cx.c("native-class")
+            if got != pol.get("cls"):
+                viol(cx, "native-class-changed",
+                     dict(w, resolved=A.tdesc(t), expected_class=pol.get("cls"),
+                          got_class=got))
+        want_kind = pol.get("kind")
+        if want_kind is not None:
+            cx.c("native-kind")
+            tt = getattr(t, "type", None)
+            if not (isinstance(tt, np.dtype) and tt.kind == want_kind):
+                viol(cx, "native-kind-changed",
+                     dict(w, resolved=A.tdesc(t), expected_kind=want_kind,
+                          boxed=A.desc(tt) if tt is not None else None))
+            if ref.itemsize and want_kind in "US":
+                # equal to the resolution of the unsized spelling?  Promised
+                # nowhere (the item size may legitimately be kept): counted
+                ok, un = safe(ad.E.dtype, np.dtype(want_kind))
+                if ok and _eqh(un, t):
+                    cx.c("native-sized-equals-unsized")
+                else:
+                    cx.c("undecided:sized-flexible-unequal-to-unsized")
+        if pol.get("box") is not None:
+            cx.c("native-box")
+            got = getattr(t, "type", None)
+            if not A.same_native(got, pol["box"]):
+                viol(cx, "native-spelling-not-boxed",
+                     dict(w, resolved=A.tdesc(t),
+                          boxed=A.desc(got) if got is not None else None))
+    type_clauses(cx, t, origin)
+    return t
+
+
+def native_phase(cx):
+    ok, cat = safe(cx.ad.native_spellings)
+    if not ok:
+        cx.run.note_inconclusive(
+            f"{cx.ad.name}: adapter native_spellings raised {exc_s(cat)}")
+        return
+    for k, ref, how in cat:
+        kd = A.desc(k)
+        t = native_clause(cx, k, ref, how, f"native:{kd}")
+        show = t is not None and (
+            (isinstance(ref, np.dtype) and ref.itemsize and ref.kind in "US")
+            or (not isinstance(ref, np.dtype) and how == "instance"))
+        cx.run.case(["native", cx.ad.name, kd, how], t is not None,
+                    sample=cx.sample("native", lambda: dict(
+                        observed(cx, k, t),
+                        native_library_reads_it_as=A.desc(ref), form=how))
+                    if show else None)
+        if t is not None:
+            cx.snapshot.setdefault("native:" + kd, (k, t))
+
+
 def pairs_phase(cx):
     phys = sorted(cx.physical.items())
     cx.c("physical_types", len(phys))
@@ -712,6 +841,15 @@ def params_phase(cx, ctx, idxs):
         if not fam["spellings"]:
             cx.run.case(["param", cx.ad.name, fam["label"], []], False)
             continue
+        if fam.get("native"):
+            k = fam["spellings"][0]
+            t = native_clause(cx, k, fam["nd"], fam["how"],
+                              f"param-native:{A.desc(k)}")
+            cx.run.case(["param-native", cx.ad.name, A.desc(k), fam["how"]],
+                        t is not None)
+            if t is not None and len(cx.param_snapshot) < PARAM_SNAPSHOT:
+                cx.param_snapshot.setdefault("native:" + A.desc(k), (k, t))
+            continue
         if fam.get("class_only"):
             cx.run.case(["param", cx.ad.name, fam["label"],
                          [A.desc(k) for k in fam["spellings"]]], True)
@@ -775,6 +913,7 @@ def run(run, ctx):
                 cx.c("registry_fully_enumerated")
             families_phase(cx)
             alias_phase(cx)
+            native_phase(cx)
         per = n_param // len(ads)
         params_phase(cx, ctx, ctx.cases(per))
         if ctx.shard == 0:
@@ -818,7 +957,24 @@ def _floors(run, ctx):
     # input classes of the sampled parameterisations (quick tier, seeds 0 and
     # 3, about a quarter of the smaller observation)
     classes = {
+        "numpy": {
+            # native spellings outside the registry (catalog + sampled)
+            "native": 750, "native-judged": 570, "native-class": 570,
+            "native-kind": 250,
+            "native-judged:flex-sized:U": 120, "native-judged:flex-sized:S": 110,
+            "native-judged:flex-unsized:U": 3, "native-judged:flex-unsized:S": 3,
+            "native-judged:numeric": 160, "native-judged:temporal": 160,
+            "native-judged:object": 2,
+            "native-how:code": 330, "native-how:instance": 300,
+            "native-how:array-dtype": 80, "native-how:scalar-class": 6,
+            "native:non-native-byte-order": 95,
+            "native:structured": 100, "native:flex-sized:V": 60,
+        },
         "pandas": {
+            "native": 220, "native-judged": 130, "native-class": 125,
+            "native-judged:numeric": 45, "native-judged:temporal": 75,
+            "native-box": 3, "native-how:extension-class": 3,
+            "native-how:extension-instance": 3,
             "boxes": 1300, "construct": 1500, "param-stable": 150,
             "resolve:param-also": 90,
             "paramclass:decimal:scale==precision": 20,
@@ -845,6 +1001,9 @@ def _floors(run, ctx):
             "paramclass:cat:ordered=True": 30,
         },
         "polars": {
+            "native": 25, "native-judged": 17, "native-box": 17,
+            "native-how:class": 8, "native-how:instance": 6,
+            "native-how:series-dtype": 6,
             "boxes": 850, "construct": 1400, "param-stable": 150,
             "paramclass:decimal:scale==precision": 15,
             "paramclass:decimal:scale==0": 15,
